@@ -192,7 +192,7 @@ def judge_negative(m, v, case):
     return None
 
 
-FLAGS = {}
+FLAGS = docprop.FLAGS
 neg_run, neg_replay = docprop.make(ID, judge_negative, lambda m, v: False,
                                    lambda m, v: ['well-formed (negative half)'], quick=12000, thorough=300000)
 
